@@ -1046,6 +1046,8 @@ def m_next(I, st, call):
                 s2.cells[key] = k
                 val = I.mat(s2, item_ty[1][1], "mapval")
                 I.write(s2, ref.place, it.with_(last_key=k.aff))
+                s2.ghost[("inj", "item-open")] = True
+                s2.ghost.pop("echoed", None)
                 st.ghost[("inj", "map-exhausted")] = True
                 out = [(st, mk_none(dt))]
                 if not s2.dead:
